@@ -559,7 +559,14 @@ class _InlineNewHelpers(_InlineMethods):
                 self.methods = {}
                 fn.body = self._block(fn.body, fn, {})
             for cls in classes:
-                self.methods = new_methods.get(cls.name, {})
+                self.methods = dict(new_methods.get(cls.name, {}))
+                own = {m.name for m in cls.body if isinstance(m, ast.FunctionDef)}
+                for b in cls.bases:
+                    # new helpers of a base class of this module, unless overridden here
+                    if isinstance(b, ast.Name):
+                        for k, v in new_methods.get(b.id, {}).items():
+                            if k not in own:
+                                self.methods.setdefault(k, v)
                 for m in cls.body:
                     if isinstance(m, ast.FunctionDef):
                         m.body = self._block(m.body, m, self.methods)
@@ -749,14 +756,17 @@ class _InlineNewHelpers(_InlineMethods):
         for cls in classes:
             cls.body = [m for m in cls.body if not (isinstance(m, ast.FunctionDef) and (cls.name, m.name) in mcands and m.name not in mentioned)] or [ast.Pass()]
 
-    def _eligible(self, host, m):
+    def _eligible(self, host, m, generator=False):
         if m is host or (m.decorator_list and not self._is_static(m)) or m.args.vararg or m.args.kwarg or len(m.body) > 120:
             return False
         # protocol methods (visitor dispatch, dunders) are reached through their base class, they are not helpers
         if m.name.startswith('visit') or m.name == 'generic_visit' or (m.name.startswith('__') and m.name.endswith('__')):
             return False
+        is_gen = any(isinstance(x, (ast.Yield, ast.YieldFrom)) for x in ast.walk(m))
+        if is_gen != generator:
+            return False
         for x in ast.walk(m):
-            if isinstance(x, (ast.Yield, ast.YieldFrom, ast.Await, ast.Global, ast.Nonlocal)):
+            if isinstance(x, (ast.Await, ast.Global, ast.Nonlocal)):
                 return False
             if x is not m and isinstance(x, (ast.AsyncFunctionDef, ast.ClassDef)):
                 return False
@@ -792,6 +802,20 @@ class _InlineNewHelpers(_InlineMethods):
             if isinstance(st, (ast.FunctionDef, ast.AsyncFunctionDef, ast.ClassDef)):
                 out.append(st)
                 continue
+            # a generator helper that is simply passed on: `yield from helper(...)` / `for t in helper(...): yield t`
+            gcall = None
+            if isinstance(st, ast.Expr) and isinstance(st.value, ast.YieldFrom) and isinstance(st.value.value, ast.Call):
+                gcall = st.value.value
+            elif isinstance(st, ast.For) and isinstance(st.iter, ast.Call) and not st.orelse and len(st.body) == 1 and isinstance(st.body[0], ast.Expr) and \
+                    isinstance(st.body[0].value, ast.Yield) and isinstance(st.target, ast.Name) and isinstance(st.body[0].value.value, ast.Name) and st.body[0].value.value.id == st.target.id:
+                gcall = st.iter
+            if gcall is not None:
+                r = self._callee(gcall, host)
+                if r is not None and self._eligible(host, r[0], generator=True):
+                    got = self._try_expand(st, gcall, None, host, on_return=lambda ret: [])
+                    if got is not None:
+                        out += got
+                        continue
             # `x = helper(...)` directly followed by a test of x alone: every exit of the helper continues with the branch its value selects
             if i_ + 1 < len(stmts):
                 both = self._expand_tested_result(st, stmts[i_ + 1], host)
@@ -896,7 +920,7 @@ class _InlineNewHelpers(_InlineMethods):
         pre = []
         for p_ in params:
             a = bound[p_]
-            if isinstance(a, ast.Name) and a.id == p_ and (p_ not in stored or tail or p_ in tnames):
+            if isinstance(a, ast.Name) and a.id == p_ and (p_ not in stored or tail or p_ in tnames or not _loaded_after(host, p_, st)):
                 mapping[p_] = p_
                 continue
             if p_ not in stored and _is_pure_path(a):
@@ -978,6 +1002,9 @@ class _InlineNewHelpers(_InlineMethods):
         for x in res:
             x._inlined_from = m.name
             ast.fix_missing_locations(x)
+            for y in ast.walk(x):
+                if isinstance(y, (ast.stmt, ast.Name)) and not hasattr(y, '_exp'):
+                    y._exp = self.counter
         return res or [ast.copy_location(ast.Pass(), st)]
 
     def _try_expand(self, st, call, target, host, tail=False, on_return=None, keep=()):
@@ -1115,6 +1142,17 @@ def _static_truth(test, X, v, records=()):
         return None
 
 
+def _loaded_after(host, name, st):
+    """is the name read in the host below the statement (textual order; a helper that rebinds its own parameter must not disturb a later reader)"""
+    end = getattr(st, 'end_lineno', None) or getattr(st, 'lineno', 0)
+    inloop = any(isinstance(x, (ast.For, ast.While)) and x.lineno <= getattr(st, 'lineno', 0) <= (getattr(x, 'end_lineno', 0) or 0) for x in ast.walk(host))
+    for x in ast.walk(host):
+        if isinstance(x, ast.Name) and x.id == name and isinstance(x.ctx, ast.Load) and not hasattr(x, '_exp'):
+            if x.lineno > end or (inloop and not (getattr(st, 'lineno', 0) <= x.lineno <= end)):
+                return True
+    return False
+
+
 def _is_pure_path(e):
     """a constant, a name, or an attribute path of a name (no call, no subscript): reading it twice gives the same object as reading it once
     as far as the rules are concerned"""
@@ -1238,8 +1276,19 @@ def _scalar_replacement(fn, records):
             if isinstance(last, ast.Assign):
                 private[id(last)] = {nm for nm, k in inside.items() if stores.get(nm) == k}
 
+    by_exp = {}
+    for y in ast.walk(fn):
+        if isinstance(y, ast.Name) and isinstance(y.ctx, (ast.Store, ast.Del)):
+            by_exp.setdefault(y.id, set()).add(getattr(y, '_exp', None))
+
     def frozen(e, at):
-        return isinstance(e, ast.Name) and (stores.get(e.id, 0) <= 1 or e.id in private.get(id(at), ()))
+        if not isinstance(e, ast.Name):
+            return False
+        if stores.get(e.id, 0) <= 1 or e.id in private.get(id(at), ()):
+            return True
+        # every binding of the name was produced by the expansion whose result this aggregate is
+        exp = getattr(at, '_exp', None)
+        return exp is not None and by_exp.get(e.id) == {exp}
     aggs = {}
     for x in ast.walk(fn):
         if isinstance(x, ast.Assign) and len(x.targets) == 1 and isinstance(x.targets[0], ast.Name) and stores.get(x.targets[0].id) == 1:
